@@ -117,11 +117,13 @@ def run(ctx, n_quick=36, n_thorough=400):
     try:
         r = ctx.rng
         nent = 0
-        for b in C.build_databases(ctx, sc, C.n_databases(ctx, n_quick, n_thorough)):
+        for b in C.build_databases(ctx, sc, C.n_databases(ctx, n_quick, n_thorough), force={"index_boundary": lambda i: i % 3 == 0}):
             case = {"cfg": b.cfg, "seed": ctx.seed}
+            n0 = len(ctx.oracle_failures)
             impl, db, exc = C.compare_db_dump(ctx, b.path, "db.dump")
             if db is None:
                 ctx.oracle_fail("rejected", f"a database written by SQLite is rejected: {impl}", case, impl, "accepted")
+                C.keep_failing_files(ctx, n0, b.path)
                 continue
             entries = {e.name: e for e in db.master_schema.master_schema_entries}
             con = sqlite3.connect(f"file:{b.path}?mode=ro", uri=True)
@@ -133,7 +135,13 @@ def run(ctx, n_quick=36, n_thorough=400):
                 sql = idx_sql.get(iname, (None, ""))[1] or ""
                 where = sql.split(" WHERE ", 1)[1] if " WHERE " in sql else None
                 want = expected_index_entries(b.path, table, icols, where)
-                cells = all_cells(db, entries[iname].root_page_number)
+                try:
+                    cells = all_cells(db, entries[iname].root_page_number)
+                    leaf_cells = list(interface.select_all_from_index(iname, db))
+                except Exception as e:  # noqa
+                    ctx.oracle_fail("index-rejected", f"reading an index b-tree SQLite wrote fails: {type(e).__name__}",
+                                    dict(case, index=iname), str(e)[:200], f"{len(want)} entries")
+                    continue
                 got = [tuple(canon_impl(c) for c in cell.payload.record_columns) for cell in cells]
                 match_multiset(ctx, got, want, f"index {iname}", dict(case, index=iname))
                 nent += len(got)
@@ -141,8 +149,7 @@ def run(ctx, n_quick=36, n_thorough=400):
                 if any(c.has_overflow for c in cells):
                     ctx.branch("index-entry-overflow")
                 # leaf-only helper: subset with correct values
-                leaf = [tuple(canon_impl(c) for c in cell.payload.record_columns)
-                        for cell in interface.select_all_from_index(iname, db)]
+                leaf = [tuple(canon_impl(c) for c in cell.payload.record_columns) for cell in leaf_cells]
                 pool = list(want)
                 for g in leaf:
                     hit = next((w for w in pool if same_entry(g, w)), None)
@@ -159,7 +166,12 @@ def run(ctx, n_quick=36, n_thorough=400):
                 want = [tuple(canon_sql2(row[3 * i], row[3 * i + 1], row[3 * i + 2]) for i in range(len(cols)))
                         for row in con.execute(f"SELECT {sel} FROM {w}")]
                 con.close()
-                cells = all_cells(db, entries[w].root_page_number)
+                try:
+                    cells = all_cells(db, entries[w].root_page_number)
+                except Exception as e:  # noqa
+                    ctx.oracle_fail("index-rejected", f"reading a WITHOUT ROWID b-tree SQLite wrote fails: {type(e).__name__}",
+                                    dict(case, table=w), str(e)[:200], f"{len(want)} entries")
+                    continue
                 got = [tuple(canon_impl(c) for c in cell.payload.record_columns) for cell in cells]
                 match_multiset(ctx, got, want, f"WITHOUT ROWID table {w}", dict(case, table=w))
                 nent += len(got)
